@@ -133,7 +133,7 @@ Lemma gen_damp erfh flux iv :
     let t1 := fun i : nat => if c1f_taper1_on mingood
                              then erfh ((qnat i - qnat mingood) / qnat (Nat.min mingood c1f_damp_len)) else 1 in
     let t2 := fun i : nat => if c1f_taper2_on maxgood n
-                             then erfh ((qnat maxgood - qnat i) / qnat (Nat.min maxgood c1f_damp_len)) else 1 in
+                             then erfh ((qnat maxgood - qnat i) / qnat (Nat.max (Nat.min maxgood c1f_damp_len) c1f_damp2_floor)) else 1 in
     map (fun t : nat * Q => snd t * t1 (fst t) * t2 (fst t)) (combine (seq 0 n) (maskinterp_idx flux bad))
   else flux.
 Proof. reflexivity. Qed.
